@@ -54,7 +54,8 @@ theorem reads_convertArray : sameSet (readsOf "convertArray" ++ readsOf "convert
     ["prefixItems", "items", "minItems", "maxItems"] = true := by decide
 
 /-- the tuple path reads neither minItems nor maxItems (finding tuple-items-all-required). -/
-theorem reads_convertTuple : sameSet (readsOf "convertTuple") ["prefixItems", "items"] = true := by decide
+theorem reads_convertTuple :
+    sameSet (readsOf "convertTuple") (["prefixItems", "items"] ++ (if cur.tupOpen then ["maxItems"] else [])) = true := by decide
 
 theorem convObject_frame (p q : Parts) (h1 : p.properties = q.properties) (h2 : p.required = q.required)
     (h3 : p.addl = q.addl) : convObject fx p = convObject fx q := by
